@@ -52,14 +52,28 @@ func TestReplay(t *testing.T) {
 // bastion.FeedBastion endpoint, whose parser hands (old, proof, checkpoint) to a recording
 // witness. What arrives must be what was given to the writer.
 
-// FBCase is one request written by feedbastion.
-type FBCase struct {
+// FBCall is what one bastionClient.Update call is given.
+type FBCall struct {
 	Origin int      `json:"origin"`
 	Hashes [][]byte `json:"hashes"`
 	Tail   []byte   `json:"tail"` // checkpoint = origin line + Tail
 }
 
+// FBCase is one use of feedbastion's client: one call, optionally with transport faults
+// on its first attempts, or two calls that overlap inside the transport.
+type FBCase struct {
+	FBCall
+	// Faults[i] is what the transport does to the i-th request it sees: "" (answer 200),
+	// "502" | "503" | "504" (gateway answers), "reset-after-read", "reset-before-read".
+	Faults []string `json:"faults,omitempty"`
+	// B, if set, is a second call on the same client, started when the first call's request
+	// has reached the transport but its body has not been read yet.
+	B *FBCall `json:"b,omitempty"`
+}
+
 var fbOrigins = []string{"example.com/log", "rekor.example - 123", "лог.example/α"}
+
+func (c *FBCall) cp() []byte { return append([]byte(fbOrigins[c.Origin]+"\n"), c.Tail...) }
 
 type fbCall struct {
 	id    string
@@ -88,37 +102,69 @@ func (w *fbWitness) Update(ctx context.Context, logID string, oldSize uint64, ne
 	return nil, errors.New("recording witness: nothing is stored")
 }
 
-// fbTransport forwards what feedbastion posts to the stub bastion's reverse connection.
+// fbTransport is the network under feedbastion's client: it records every body that is
+// posted (the harness forwards them to the endpoint afterwards) and plays scripted faults.
 type fbTransport struct {
-	stub   *vlib.StubBastion
-	mu     sync.Mutex
-	bodies [][]byte
-	codes  []int
+	mu       sync.Mutex
+	script   []string
+	attempts int
+	posted   map[int][]byte // fully read bodies by arrival index of their request
+	gate     chan struct{} // if set: the first request waits here before its body is read
+	arrived  chan int
 }
 
 func (t *fbTransport) RoundTrip(r *http.Request) (*http.Response, error) {
+	t.mu.Lock()
+	idx := t.attempts
+	t.attempts++
+	fault := ""
+	if idx < len(t.script) {
+		fault = t.script[idx]
+	}
+	gate := t.gate
+	t.mu.Unlock()
+	select {
+	case t.arrived <- idx:
+	default:
+	}
+	if idx == 0 && gate != nil {
+		select {
+		case <-gate:
+		case <-time.After(10 * time.Second):
+		}
+	}
+	if fault == "reset-before-read" {
+		if r.Body != nil {
+			r.Body.Close()
+		}
+		return nil, errors.New("stub network: connection reset before the request was sent")
+	}
 	var body []byte
 	if r.Body != nil {
 		body, _ = io.ReadAll(r.Body)
 		r.Body.Close()
 	}
-	code, hdr, rb, err := t.stub.Post(body)
-	if err != nil {
-		return nil, err
-	}
 	t.mu.Lock()
-	t.bodies = append(t.bodies, body)
-	t.codes = append(t.codes, code)
+	if t.posted == nil {
+		t.posted = map[int][]byte{}
+	}
+	t.posted[idx] = body
 	t.mu.Unlock()
-	return &http.Response{StatusCode: code, Status: strconv.Itoa(code), Header: hdr, Body: io.NopCloser(bytes.NewReader(rb)), Request: r, ProtoMajor: 1, ProtoMinor: 1}, nil
+	switch fault {
+	case "reset-after-read":
+		return nil, errors.New("stub network: connection reset after the request was sent")
+	case "502", "503", "504":
+		code, _ := strconv.Atoi(fault)
+		return &http.Response{StatusCode: code, Status: fault + " gateway trouble", Header: http.Header{}, Body: io.NopCloser(bytes.NewReader([]byte("try later"))), Request: r, ProtoMajor: 1, ProtoMinor: 1}, nil
+	}
+	return &http.Response{StatusCode: 200, Status: "200 OK", Header: http.Header{}, Body: io.NopCloser(bytes.NewReader([]byte("ok"))), Request: r, ProtoMajor: 1, ProtoMinor: 1}, nil
 }
 
 type fbFixture struct {
 	stub *vlib.StubBastion
 	w    *fbWitness
-	tr   *fbTransport
-	bc   *bastionClient
 	ids  []string
+	byID map[string]string
 }
 
 var (
@@ -134,9 +180,8 @@ func getFB() (*fbFixture, error) {
 			fbErr = err
 			return
 		}
-		f := &fbFixture{stub: stub, w: &fbWitness{}, tr: &fbTransport{stub: stub}}
+		f := &fbFixture{stub: stub, w: &fbWitness{}, byID: map[string]string{}}
 		var logs []config.Log
-		byID := map[string]string{}
 		for i, o := range fbOrigins {
 			lc, err := config.NewLog(o, vlib.NewKey("fblogkey", fmt.Sprintf("fblog%d", i)).VKey(), "http://unused.example/")
 			if err != nil {
@@ -145,7 +190,7 @@ func getFB() (*fbFixture, error) {
 			}
 			logs = append(logs, lc)
 			f.ids = append(f.ids, lc.ID)
-			byID[lc.ID] = o
+			f.byID[lc.ID] = o
 		}
 		wk := vlib.NewKey("witness.example/w", "wit")
 		seed := sha256.Sum256([]byte("verif bastion backend key"))
@@ -157,10 +202,49 @@ func getFB() (*fbFixture, error) {
 			fbErr = err
 			return
 		}
-		f.bc = &bastionClient{httpClient: &http.Client{Transport: f.tr}, url: "https://bastion.invalid/" + "add-checkpoint", originByLogID: byID}
 		fbFix = f
 	})
 	return fbFix, fbErr
+}
+
+// deliver posts one recorded body to the real endpoint and checks what the witness gets.
+func (f *fbFixture) deliver(body []byte, want *FBCall, what string) error {
+	if len(body) > 16*1024 {
+		return nil // over the endpoint's cap: refused whatever it contains
+	}
+	f.w.mu.Lock()
+	f.w.calls = nil
+	f.w.mu.Unlock()
+	code, _, _, err := f.stub.Post(body)
+	if err != nil {
+		return fmt.Errorf("harness: post: %v", err)
+	}
+	f.w.mu.Lock()
+	calls := f.w.calls
+	f.w.mu.Unlock()
+	cp := want.cp()
+	if len(calls) != 1 {
+		return fmt.Errorf("%s: the body written by feedbastion (%d hashes, %d checkpoint bytes given) does not reach the witness: endpoint answered %d, %d witness calls; body %q", what, len(want.Hashes), len(cp), code, len(calls), trunc(body))
+	}
+	got := calls[0]
+	if got.id != f.ids[want.Origin] {
+		return fmt.Errorf("%s: request filed under ID %s, want %s", what, got.id, f.ids[want.Origin])
+	}
+	if got.old != 0 {
+		return fmt.Errorf("%s: old size read back as %d, feedbastion writes 0", what, got.old)
+	}
+	if !bytes.Equal(got.cp, cp) {
+		return fmt.Errorf("%s: checkpoint given to feedbastion does not read back: given %q, read %q", what, trunc(cp), trunc(got.cp))
+	}
+	if len(got.proof) != len(want.Hashes) {
+		return fmt.Errorf("%s: %d proof hashes given, %d read (body %q)", what, len(want.Hashes), len(got.proof), trunc(body))
+	}
+	for i := range want.Hashes {
+		if !bytes.Equal(got.proof[i], want.Hashes[i]) {
+			return fmt.Errorf("%s: proof hash %d: given %x, read %x", what, i, want.Hashes[i], got.proof[i])
+		}
+	}
+	return nil
 }
 
 func runFB(c *FBCase) (bool, []string, error) {
@@ -168,52 +252,91 @@ func runFB(c *FBCase) (bool, []string, error) {
 	if err != nil {
 		return false, nil, fmt.Errorf("harness: %v", err)
 	}
-	f.w.mu.Lock()
-	f.w.calls = nil
-	f.w.mu.Unlock()
-	f.tr.mu.Lock()
-	f.tr.bodies, f.tr.codes = nil, nil
-	f.tr.mu.Unlock()
-	cp := append([]byte(fbOrigins[c.Origin]+"\n"), c.Tail...)
+	tr := &fbTransport{script: c.Faults, arrived: make(chan int, 16)}
+	bc := &bastionClient{httpClient: &http.Client{Transport: tr}, url: "https://bastion.invalid/add-checkpoint", originByLogID: f.byID}
+	cp := c.cp()
 	nontrivial := len(c.Hashes) >= 1 && bytes.Contains(cp, []byte("\n\n"))
-	cls := fmt.Sprintf("hashes=%d", min(len(c.Hashes), 3))
-	if _, err := f.bc.Update(context.Background(), f.ids[c.Origin], 0, cp, c.Hashes); err != nil {
-		return nontrivial, []string{cls}, fmt.Errorf("harness: feedbastion's Update failed: %v", err)
-	}
-	f.tr.mu.Lock()
-	bodies, codes := f.tr.bodies, f.tr.codes
-	f.tr.mu.Unlock()
-	if len(bodies) != 1 {
-		return nontrivial, []string{cls}, fmt.Errorf("feedbastion sent %d requests, want 1", len(bodies))
-	}
-	if len(bodies[0]) > 16*1024 {
-		return false, []string{"over-the-cap"}, nil
-	}
-	f.w.mu.Lock()
-	calls := f.w.calls
-	f.w.mu.Unlock()
-	if len(calls) != 1 {
-		return nontrivial, []string{cls}, fmt.Errorf("the body written by feedbastion (%d hashes, %d checkpoint bytes) did not reach the witness: endpoint answered %d, %d witness calls; body %q", len(c.Hashes), len(cp), codes[0], len(calls), trunc(bodies[0]))
-	}
-	got := calls[0]
-	if got.id != f.ids[c.Origin] {
-		return nontrivial, []string{cls}, fmt.Errorf("request filed under ID %s, want %s", got.id, f.ids[c.Origin])
-	}
-	if got.old != 0 {
-		return nontrivial, []string{cls}, fmt.Errorf("old size read back as %d, feedbastion wrote 0", got.old)
-	}
-	if !bytes.Equal(got.cp, cp) {
-		return nontrivial, []string{cls}, fmt.Errorf("checkpoint written by feedbastion does not read back: wrote %q, read %q", trunc(cp), trunc(got.cp))
-	}
-	if len(got.proof) != len(c.Hashes) {
-		return nontrivial, []string{cls}, fmt.Errorf("wrote %d proof hashes, read %d (body %q)", len(c.Hashes), len(got.proof), trunc(bodies[0]))
-	}
-	for i := range c.Hashes {
-		if !bytes.Equal(got.proof[i], c.Hashes[i]) {
-			return nontrivial, []string{cls}, fmt.Errorf("proof hash %d: wrote %x, read %x", i, c.Hashes[i], got.proof[i])
+	cls := []string{fmt.Sprintf("hashes=%d", min(len(c.Hashes), 3))}
+	faulted := false
+	for _, fl := range c.Faults {
+		if fl != "" {
+			faulted = true
 		}
 	}
-	return nontrivial, []string{cls}, nil
+	if c.B == nil {
+		_, uerr := bc.Update(context.Background(), f.ids[c.Origin], 0, cp, c.Hashes)
+		if uerr != nil && !faulted {
+			return nontrivial, cls, fmt.Errorf("harness: feedbastion's Update failed without a fault: %v", uerr)
+		}
+		if faulted {
+			cls = append(cls, "transport-fault")
+		}
+		tr.mu.Lock()
+		posted := tr.posted
+		n := tr.attempts
+		tr.mu.Unlock()
+		if n == 0 {
+			return nontrivial, cls, fmt.Errorf("feedbastion's Update made no request at all")
+		}
+		if n > 1 {
+			cls = append(cls, "retried")
+		}
+		// every body that went out for this call must be the request, whole
+		for i := 0; i < n; i++ {
+			b, ok := posted[i]
+			if !ok {
+				continue // reset before the body was read
+			}
+			if err := f.deliver(b, &c.FBCall, fmt.Sprintf("request %d of %d for one Update", i+1, n)); err != nil {
+				return nontrivial, cls, err
+			}
+		}
+		return nontrivial, cls, nil
+	}
+	// two overlapping calls
+	cls = append(cls, "overlapping-calls")
+	tr.gate = make(chan struct{})
+	var wg sync.WaitGroup
+	wg.Add(1)
+	go func() {
+		defer wg.Done()
+		_, _ = bc.Update(context.Background(), f.ids[c.Origin], 0, cp, c.Hashes)
+	}()
+	select {
+	case <-tr.arrived:
+	case <-time.After(10 * time.Second):
+		close(tr.gate)
+		wg.Wait()
+		return false, cls, fmt.Errorf("harness: the first call never reached the transport")
+	}
+	wg.Add(1)
+	go func() {
+		defer wg.Done()
+		_, _ = bc.Update(context.Background(), f.ids[c.B.Origin], 0, c.B.cp(), c.B.Hashes)
+	}()
+	overlapped := false
+	select {
+	case <-tr.arrived:
+		overlapped = true
+	case <-time.After(3 * time.Second):
+		// a client that serialises its calls is fine: no overlap then
+	}
+	close(tr.gate)
+	wg.Wait()
+	tr.mu.Lock()
+	posted := tr.posted
+	tr.mu.Unlock()
+	if len(posted) != 2 {
+		return nontrivial, cls, fmt.Errorf("two Update calls posted %d bodies", len(posted))
+	}
+	if !overlapped {
+		cls = append(cls, "client-serialised-the-calls")
+	}
+	// request 0 belongs to the first call (held before its body was read), request 1 to the second
+	if err := f.deliver(posted[0], &c.FBCall, "first of two overlapping calls (its body was read after the second call had been built)"); err != nil {
+		return true, cls, err
+	}
+	return true, cls, f.deliver(posted[1], c.B, "second of two overlapping calls")
 }
 
 func trunc(b []byte) string {
@@ -223,33 +346,57 @@ func trunc(b []byte) string {
 	return string(b)
 }
 
+func genFBCall(rt *rapid.T, label string) FBCall {
+	c := FBCall{Origin: rapid.IntRange(0, len(fbOrigins)-1).Draw(rt, label+"origin")}
+	n := rapid.IntRange(0, 64).Draw(rt, label+"nhashes")
+	if vlib.Pct(rt, 30, label+"edge") {
+		n = rapid.SampledFrom([]int{0, 1, 2, 31, 32, 33, 63, 64}).Draw(rt, label+"nedge")
+	}
+	for i := 0; i < n; i++ {
+		l := 32
+		if !rapid.Bool().Draw(rt, label+"h32") {
+			l = rapid.IntRange(1, 64).Draw(rt, label+"hlen")
+		}
+		c.Hashes = append(c.Hashes, rapid.SliceOfN(rapid.Byte(), l, l).Draw(rt, label+"hash"))
+	}
+	switch rapid.IntRange(0, 3).Draw(rt, label+"tailkind") {
+	case 0:
+		c.Tail = []byte("5\nAAAAAAAAAAAAAAAAAAAAAAAAAAAAAAAAAAAAAAAAAAA=\n\n— k AAAAAAAAAA==\n")
+	case 1:
+		c.Tail = rapid.SliceOfN(rapid.Byte(), 0, 400).Draw(rt, label+"tailbytes")
+	case 2:
+		parts := rapid.SliceOfN(rapid.SampledFrom([]string{"\n", "\n\n", "\r\n", "\x00", "\xff\xfe", "old 5", "line", "AAAA", "— sig", " "}), 0, 14).Draw(rt, label+"tailparts")
+		for _, p := range parts {
+			c.Tail = append(c.Tail, p...)
+		}
+	default:
+		c.Tail = bytes.Repeat([]byte("0123456789abcde\n"), rapid.IntRange(0, 500).Draw(rt, label+"taillines"))
+	}
+	return c
+}
+
 func TestC11FeedbastionWriter(t *testing.T) {
-	st := vlib.StatsFor("C11", "writer", "requests written by cmd/feedbastion's own bastionClient.Update (0..64 hashes of 1..64 bytes; checkpoint = a configured origin line followed by arbitrary bytes incl. blank lines, CR, NUL, non-UTF-8; body within the endpoint's 16 KiB cap) sent through a stub bastion into the exported FeedBastion endpoint with a recording witness: the (old size, proof, checkpoint) the witness receives must equal what the writer was given; non-trivial = >=1 hash and a checkpoint containing a blank line; distinct by case hash")
+	st := vlib.StatsFor("C11", "writer", "requests written by cmd/feedbastion's own bastionClient.Update (0..64 hashes of 1..64 bytes; checkpoint = a configured origin line followed by arbitrary bytes incl. blank lines, CR, NUL, non-UTF-8; body within the endpoint's 16 KiB cap); 15% with transport faults on the first attempts (gateway answers, resets), 15% as two calls on one client overlapping inside the transport; EVERY body that leaves the client is delivered through a stub bastion into the exported FeedBastion endpoint with a recording witness: the (old size, proof, checkpoint) the witness receives must equal what that Update call was given; non-trivial = >=1 hash and a checkpoint containing a blank line, or overlapping calls; distinct by case hash")
 	rapid.Check(t, func(rt *rapid.T) {
-		c := &FBCase{Origin: rapid.IntRange(0, len(fbOrigins)-1).Draw(rt, "origin")}
-		n := rapid.IntRange(0, 64).Draw(rt, "nhashes")
-		if vlib.Pct(rt, 30, "edge") {
-			n = rapid.SampledFrom([]int{0, 1, 2, 31, 32, 33, 63, 64}).Draw(rt, "nedge")
-		}
-		for i := 0; i < n; i++ {
-			l := 32
-			if !rapid.Bool().Draw(rt, "h32") {
-				l = rapid.IntRange(1, 64).Draw(rt, "hlen")
+		c := &FBCase{FBCall: genFBCall(rt, "")}
+		switch k := vlib.Uniform(rt, 20, "mode"); {
+		case k < 3:
+			n := rapid.IntRange(1, 3).Draw(rt, "nfaults")
+			for i := 0; i < n; i++ {
+				c.Faults = append(c.Faults, rapid.SampledFrom([]string{"502", "503", "504", "reset-after-read", "reset-before-read"}).Draw(rt, "fault"))
 			}
-			c.Hashes = append(c.Hashes, rapid.SliceOfN(rapid.Byte(), l, l).Draw(rt, "hash"))
-		}
-		switch rapid.IntRange(0, 3).Draw(rt, "tailkind") {
-		case 0:
-			c.Tail = []byte("5\nAAAAAAAAAAAAAAAAAAAAAAAAAAAAAAAAAAAAAAAAAAA=\n\n— k AAAAAAAAAA==\n")
-		case 1:
-			c.Tail = rapid.SliceOfN(rapid.Byte(), 0, 400).Draw(rt, "tailbytes")
-		case 2:
-			parts := rapid.SliceOfN(rapid.SampledFrom([]string{"\n", "\n\n", "\r\n", "\x00", "\xff\xfe", "old 5", "line", "AAAA", "— sig", " "}), 0, 14).Draw(rt, "tailparts")
-			for _, p := range parts {
-				c.Tail = append(c.Tail, p...)
+		case k < 6:
+			b := genFBCall(rt, "b_")
+			if rapid.Bool().Draw(rt, "sameshape") {
+				// same layout, other content: bodies of exactly the same length
+				b = FBCall{Origin: c.Origin, Tail: bytes.ToUpper(append([]byte{}, c.Tail...))}
+				for _, h := range c.Hashes {
+					h2 := append([]byte{}, h...)
+					h2[0] ^= 0x55
+					b.Hashes = append(b.Hashes, h2)
+				}
 			}
-		default:
-			c.Tail = bytes.Repeat([]byte("0123456789abcde\n"), rapid.IntRange(0, 500).Draw(rt, "taillines"))
+			c.B = &b
 		}
 		nt, cls, err := runFB(c)
 		b, _ := json.Marshal(c)
